@@ -616,40 +616,61 @@ Theorem api_old_refuted :
   In (CSat StBool) (db_convs_old f4_db) /\ conv_ok (CSat StBool) = false.
 Proof. vm_compute. intuition. Qed.
 
+Theorem accessor_sets : forall hp m s,
+  let sa := signal_api_with hp m s in
+  let t := sa_type sa in
+  let self := GPtr (msg_name m) in
+  (hp s = true ->
+     sa_reader sa = [ mk_sig (s_name s) [] [GBasic BFloat64]; mk_sig (k_Raw ++ s_name s) [] [t] ] /\
+     sa_writer sa = [ mk_sig (k_Set ++ s_name s) [GBasic BFloat64] [self]; mk_sig (k_SetRaw ++ s_name s) [t] [self] ]) /\
+  (hp s = false ->
+     sa_reader sa = [ mk_sig (s_name s) [] [t] ] /\ sa_writer sa = [ mk_sig (k_Set ++ s_name s) [t] [self] ]).
+Proof. intros hp m s. cbn. split; intros ->; split; reflexivity. Qed.
+
+Theorem node_groups : forall db n,
+  (exists f, collect_rx db n = filter f (db_messages db) /\ forall m, f m = true <-> receives (node_name n) m) /\
+  (exists g, collect_tx db n = filter g (db_messages db) /\ forall m, g m = true <-> sends_with_type (node_name n) m) /\
+  na_rx (node_api_of db n) = map msg_name (collect_rx db n) /\
+  na_tx (node_api_of db n) = map (fun m => (msg_name m, is_cyclic (msg_send_type m))) (collect_tx db n).
+Proof.
+  intros db n. split; [apply rx_group_correct|]. split; [apply tx_group_correct|]. split; reflexivity.
+Qed.
+
 (** * A concrete database of the class (non-vacuity of the hypotheses of C11) *)
 From Coq Require Import String.
 Local Open Scope string_scope.
 Local Open Scope Z_scope.
+Local Notation B s := ltac:(let x := eval compute in (bos s) in exact x) (only parsing).
 Definition ex_sig (name : bytes) (start len : Z) (signed float mux muxed : bool) (muxv scale offset mn mx : Z)
     (vds : list Types.value_description) (recv : list bytes) (dflt : Z) : signal :=
   {| s_name := name; s_start := start; s_length := len; s_big_endian := false; s_signed := signed; s_float := float;
      s_multiplexer := mux; s_multiplexed := muxed; s_mux_value := muxv; s_offset := offset; s_scale := scale;
      s_min := mn; s_max := mx; s_unit := []; s_description := []; s_value_descriptions := vds;
      s_receivers := recv; s_default := dflt |}.
-Definition ex_ecu : bytes := Eval compute in bos "Ecu".
-Definition ex_gateway : bytes := Eval compute in bos "Gateway".
+Definition ex_ecu : bytes := B "Ecu".
+Definition ex_gateway : bytes := B "Gateway".
 Definition ex_status : message :=
-  {| msg_name := Eval compute in bos "Status"; msg_id := 0x100; msg_extended := false; msg_length := 8;
+  {| msg_name := B "Status"; msg_id := 0x100; msg_extended := false; msg_length := 8;
      msg_send_type := SendCyclic; msg_description := [];
      msg_signals :=
-       [ ex_sig (Eval compute in bos "Speed") 0 12 false false false false 0 0x3FB999999999999A (* 0.1 *) 0 0 0 [] [ex_gateway] 0;
-         ex_sig (Eval compute in bos "Mode") 16 3 false false false false 0 f64_one 0 0 0
-           [ {| vdesc_value := 0; vdesc_text := Eval compute in bos "Off" |};
-             {| vdesc_value := 1; vdesc_text := Eval compute in bos "On" |};
-             {| vdesc_value := 2; vdesc_text := Eval compute in bos "Error State" |} ] [ex_gateway] 1;
-         ex_sig (Eval compute in bos "Flag") 20 1 false false false false 0 0x4000000000000000 (* 2.0 *) 0 0 0 [] [ex_gateway] 1;
-         ex_sig (Eval compute in bos "Temp") 24 9 true false false false 0 f64_one 0xC044000000000000 (* -40 *) 0 0 [] [ex_gateway] 0 ];
+       [ ex_sig (B "Speed") 0 12 false false false false 0 0x3FB999999999999A (* 0.1 *) 0 0 0 [] [ex_gateway] 0;
+         ex_sig (B "Mode") 16 3 false false false false 0 f64_one 0 0 0
+           [ {| vdesc_value := 0; vdesc_text := B "Off" |};
+             {| vdesc_value := 1; vdesc_text := B "On" |};
+             {| vdesc_value := 2; vdesc_text := B "Error State" |} ] [ex_gateway] 1;
+         ex_sig (B "Flag") 20 1 false false false false 0 0x4000000000000000 (* 2.0 *) 0 0 0 [] [ex_gateway] 1;
+         ex_sig (B "Temp") 24 9 true false false false 0 f64_one 0xC044000000000000 (* -40 *) 0 0 [] [ex_gateway] 0 ];
      msg_sender := ex_ecu; msg_cycle_time := 100000000; msg_delay_time := 0 |}.
 Definition ex_cmd : message :=
-  {| msg_name := Eval compute in bos "Cmd"; msg_id := 0x200; msg_extended := false; msg_length := 8;
+  {| msg_name := B "Cmd"; msg_id := 0x200; msg_extended := false; msg_length := 8;
      msg_send_type := SendNone; msg_description := [];
      msg_signals :=
-       [ ex_sig (Eval compute in bos "Sel") 0 2 false false true false 0 f64_one 0 0 0 [] [ex_ecu] 0;
-         ex_sig (Eval compute in bos "A") 8 16 true false false true 0 f64_one 0 0 0 [] [ex_ecu] 0;
-         ex_sig (Eval compute in bos "B") 8 32 false true false true 3 f64_one 0 0 0 [] [ex_ecu] 0 ];
+       [ ex_sig (B "Sel") 0 2 false false true false 0 f64_one 0 0 0 [] [ex_ecu] 0;
+         ex_sig (B "A") 8 16 true false false true 0 f64_one 0 0 0 [] [ex_ecu] 0;
+         ex_sig (B "B") 8 32 false true false true 3 f64_one 0 0 0 [] [ex_ecu] 0 ];
      msg_sender := ex_gateway; msg_cycle_time := 0; msg_delay_time := 0 |}.
 Definition ex_db : database :=
-  {| db_source_file := Eval compute in bos "ex.dbc"; db_version := [];
+  {| db_source_file := B "ex.dbc"; db_version := [];
      db_messages := [ex_status; ex_cmd];
      db_nodes := [ {| node_name := ex_ecu; node_description := [] |}; {| node_name := ex_gateway; node_description := [] |} ] |}.
 
@@ -663,5 +684,5 @@ Lemma ex_db_facts :
     = [[true; false; true; true]; [false; false; false]] /\
   option_map (map (fun na => (na_name na, na_rx na, na_tx na))) (api_nodes (api_of_db ex_db))
     = Some [ (ex_ecu, [msg_name ex_cmd], [(msg_name ex_status, true)]); (ex_gateway, [msg_name ex_status], []) ] /\
-  (28 <= length (db_convs ex_db))%nat /\ db_convs_ok ex_db = true /\ db_convs_ok_old ex_db = false.
+  (28 <= List.length (db_convs ex_db))%nat /\ db_convs_ok ex_db = true /\ db_convs_ok_old ex_db = false.
 Proof. vm_compute. intuition. Qed.
